@@ -355,16 +355,19 @@ func (e *env) sentinelWrite() string {
 	return m.Marker
 }
 
-func (e *env) expectedFor(local, internal bool, prefix string, c cond) []delivery {
+func (e *env) expectedFor(local, internal bool, prefix string, c cond, path string) []delivery {
 	var out []delivery
 	for _, ev := range e.events {
 		if !strings.HasPrefix(ev.key, prefix) {
 			continue
 		}
-		if !ev.rec.permits(local, internal) {
+		if !c.matches(&ev.rec) {
 			continue
 		}
-		if !c.matches(&ev.rec) {
+		if !ev.rec.permits(local, internal) {
+			// a write that this subscription must not see
+			rec := ev.rec
+			e.noteDenied(path, &rec)
 			continue
 		}
 		out = append(out, delivery{key: e.full(ev.key), marker: ev.rec.Marker, deleted: ev.deleted})
@@ -423,11 +426,8 @@ func (e *env) checkInterfaceSubs() {
 					break drain
 				}
 			}
-			if e.fuzzy {
-				continue
-			}
-			want := e.expectedFor(r.local, r.internal, s.prefix, s.cond)
-			if !sameDeliveries(got, want, false) {
+			want := e.expectedFor(r.local, r.internal, s.prefix, s.cond, "feed")
+			if !e.fuzzy && !sameDeliveries(got, want, false) {
 				e.failf("MODEL: %s received%s, expected%s", who, fmtDeliveries(got), fmtDeliveries(want))
 			}
 		}
@@ -722,8 +722,13 @@ func (e *env) execReader(op opSpec, k string, r *reader) {
 	perm := visible && m.permits(r.local, r.internal)
 	lenient := r.lenient(k)
 	stats.Class("path:" + op.Kind)
-	if visible && !perm {
-		e.noteDenied(op.Kind, m)
+	switch op.Kind {
+	case "r.query", "r.sub", "r.clearcache", "r.purge", "r.putmany":
+		// counted where the records they touch are known
+	default:
+		if visible && !perm {
+			e.noteDenied(op.Kind, m)
+		}
 	}
 
 	switch op.Kind {
